@@ -175,8 +175,9 @@ ssize_t __wrap_write(int fd, const void *buf, size_t n)
         TRACE("write(%d, %zu) = -1 %s [injected]", fd, n, kind == F_EINTR ? "EINTR" : "EAGAIN");
         errno = kind == F_EINTR ? EINTR : EAGAIN; return -1;
     }
-    if (!ready(fd, POLLOUT)) {
-        /* buffer full and nobody will ever drain it while we are inside send */
+    int lst = 0; socklen_t ol = sizeof lst;
+    if (!ready(fd, POLLOUT) && !(getsockopt(fd, SOL_SOCKET, SO_ACCEPTCONN, &lst, &ol) == 0 && lst)) {
+        /* buffer full and nobody will ever drain it while we are inside send (a listening socket fails at once instead) */
         guard_write_block++;
         TRACE("write(%d, %zu) would block forever -> ENOBUFS [guard]", fd, n);
         errno = ENOBUFS; return -1;
